@@ -6,7 +6,7 @@ package fstxn
 //@ predicate fsInv(fs *FsState) = fs != nil && superInv(fs.Super) && acceptedSize(dsksize) && fs.Txn != nil && fs.Icache != nil && fs.Lockmap != nil && fs.Balloc != nil && fs.Ialloc != nil && base(fs.Balloc) == theBalloc && base(fs.Ialloc) == theIalloc && theBalloc != theIalloc
 // opInv: the transaction's inode table holds exactly the inodes whose locks this goroutine holds.
 //@ predicate opShape(op *FsTxn) = op != nil && fsInv(op.Fs) && atxnInv(op.Atxn) && op.inodes != nil && op.Atxn.Super == op.Fs.Super
-//@ predicate opTable(op *FsTxn) = forall i uint64 :: held[i] ==> indom(op.inodes, i) && op.inodes[i] != nil && op.inodes[i].Inum == i
+//@ predicate opTable(op *FsTxn) = forall i uint64 :: held[i] ==> indom(op.inodes, i) && op.inodes[i] != nil && op.inodes[i].Inum == i && i < 32768
 //@ predicate opDom(op *FsTxn) = forall i uint64 :: indom(op.inodes, i) ==> held[i]
 //@ specfunc opInv(op *FsTxn) = opShape(op) && opTable(op) && opDom(op)
 // I-alloc (global invariant, assumed where an inode is found live): a live inode's number is marked allocated
@@ -67,13 +67,20 @@ package fstxn
 //@   ensures noLocks() && opInv(op)
 //@   loop 0 invariant opInv(op) && (forall i uint64 :: held[i] ==> !dirtyinum[i]) && (forall i uint64 :: held[i] ==> rangestart[i] && !rangevisited[i]) && (forall i uint64 :: held[i] ==> old(held)[i])
 
+// A2 (C09): dropping the cached copy of an inode (nil into its cache slot) is what makes the next user reload it
+// from the transaction-consistent disk state: the copy is no longer ahead of anything.
+//@ onwrite cache.Cslot.Obj: dirtyinum = ite(value.tag == 0, store(dirtyinum, slotid[base(this)], false), dirtyinum)
 //@ spec (*FsTxn).invalidateInodes(op)
-//@   assume
+//@   props C09 C10 C01 C03 C11 C14
 //@   requires opInv(op)
-//@   allocates buf.Buf
+//@   allocates buf.Buf, cache.Cslot
 //@   modifies cache.Cslot.Obj, dirtyinum
-//@   ensures forall i uint64 :: held[i] && wroteinum[i] ==> !dirtyinum[i]
-//@   ensures forall i uint64 :: !(held[i] && wroteinum[i]) ==> dirtyinum[i] == old(dirtyinum)[i]
+//@   ensures [A2-invalidated] forall i uint64 :: held[i] && wroteinum[i] ==> !dirtyinum[i] @C09 @C10
+//@   ensures [A2-only-written] forall i uint64 :: !(held[i] && wroteinum[i]) ==> dirtyinum[i] == old(dirtyinum)[i] @C09
+//@   ensures opInv(op)
+//@   loop 0 invariant opInv(op) && (forall i uint64 :: held[i] ==> rangestart[i])
+//@   loop 0 invariant [done] forall i uint64 :: rangevisited[i] && held[i] && wroteinum[i] ==> !dirtyinum[i]
+//@   loop 0 invariant [others] forall i uint64 :: !(held[i] && wroteinum[i]) ==> dirtyinum[i] == old(dirtyinum)[i]
 
 // C03-L2: a lock is given up early only by the lookup that took it and found the inode unusable.
 //@ spec (*FsTxn).ReleaseInode(op, ip)
